@@ -68,3 +68,23 @@ package snapshot
 //@   let dup = d.flags & 4 != 0
 //@   let hack = d.transform == "dupsort_hack_v1"
 //@   ensures table: iff(r0 == nil, (d.transform == "" || hack) && !(nativeSchema && d.transform != "") && (formatVersion >= 3 ==> iff(dup, hack)))
+
+//@ func (d *DBI) SetName
+//@   trusted
+//@   modifies d.name, d.dirty
+//@ func (d *DBI) SetFlags
+//@   trusted
+//@   modifies d.flags, d.dirty
+//@ func (d *DBI) SetTransform
+//@   trusted
+//@   modifies d.transform, d.dirty
+//@ func (d *DBI) Append
+//@   trusted
+//@   modifies *d
+//@ func NewDBISize
+//@   trusted
+//@   pure
+//@   ensures r0 != nil
+//@ func (d *DBI) Size
+//@   trusted
+//@   modifies *d
